@@ -3,7 +3,6 @@ package htlcswitch
 // switchsim: oracles, wind-down, worker entry point (property C08).
 
 import (
-	"sync/atomic"
 	"bytes"
 	"context"
 	"errors"
@@ -13,6 +12,7 @@ import (
 	"runtime/debug"
 	"strings"
 	"sync"
+	"sync/atomic"
 	"testing"
 	"time"
 
